@@ -34,6 +34,9 @@ func runBounded(repo, test, tier string, seed int) (*boundedResult, string, erro
 	if test == "TestC16" {
 		cmd = exec.Command("/verif/bounded/run_inpkg.sh", "mdns", "/verif/bounded/inpkg/mdns_c16_test.go", test, out)
 	}
+	if test == "TestC07Wire" {
+		cmd = exec.Command("/verif/bounded/run_inpkg.sh", "ship", "/verif/bounded/inpkg/ship_c07_test.go", test, out)
+	}
 	if test == "TestC17Hub" {
 		cmd = exec.Command("/verif/bounded/run_inpkg.sh", "hub", "/verif/bounded/inpkg/hub_c17_test.go", test, out)
 	}
